@@ -30,6 +30,7 @@ func init() {
 				c10SkipOnly(c)
 			}},
 			{"C03.verify-option", "SkipVerify options are only written by configuration code", 1, c03VerifyOption},
+			{"C03.flag-owners", "the variable behind --skip-verify-read (and the other protection switches) is set by that flag only", 8, func(c *Ctx) { c.flagOwners() }},
 		},
 	})
 }
